@@ -117,7 +117,7 @@ V('H5b_flip_p4_encode', ['C11'], 'luts.py', fn=lut_flip("(4, 8)", 1, 0x4100, 'bi
 V('H5a_flip_e5m2_decode', ['C11'], 'luts.py', fn=lut_flip("(5, 2, 15, 'overflow')", 0, 4 * 0x41), expect=['H5a'])
 V('H5c_e4m3_overflow_clamp', ['C11'], 'mxfp.py', "self.pos_clamp_value = self.neg_clamp_value = 0b11111111  # NaN", "self.pos_clamp_value = self.neg_clamp_value = 0b01111110  # NaN", ['H5c'])
 V('H5c_e5m2_saturate_clamp', ['C11'], 'mxfp.py', "self.pos_clamp_value = 0b01111011  # 57344", "self.pos_clamp_value = 0b01111100  # 57344", ['H5c'])
-V('H5c_narrow_except', ['C11', 'C20'], 'mxfp.py', "except (OverflowError, struct.error):", "except struct.error:", ['H5c'])
+V('H5c_narrow_except', ['C11'], 'mxfp.py', "except (OverflowError, struct.error):", "except struct.error:", ['H5c'])
 V('H5c_byteorder_mismatch', ['C11'], 'fp8.py', "f16_int = int.from_bytes(b, byteorder='big')", "f16_int = int.from_bytes(b, byteorder='little')", ['H5c'])
 V('H5c_overflow_selection_swapped', ['C11'], 'bitstore_helpers.py', "    if bitstring.options.mxfp_overflow == 'saturate':\n        u = e5m2mxfp_saturate_fmt.float_to_int(f)\n    else:\n        u = e5m2mxfp_overflow_fmt.float_to_int(f)",
   "    if bitstring.options.mxfp_overflow == 'saturate':\n        u = e5m2mxfp_overflow_fmt.float_to_int(f)\n    else:\n        u = e5m2mxfp_saturate_fmt.float_to_int(f)", ['H5c'])
@@ -201,7 +201,7 @@ V('POSW_init_no_upper_check', ['C06', 'C20'], 'bitstream.py', "        if pos < 
 V('POSW_setbitpos_no_upper_check', ['C06', 'C20'], 'bitstream.py', "        if pos > len(self):\n            raise ValueError(\"Cannot seek past the end of the data.\")\n", "", ['POSW'])
 V('POSW_read_int_no_bound', ['C06'], 'bitstream.py', "            if fmt > len(self) - self._pos:\n                raise bitstring.ReadError(f\"Cannot read {fmt} bits, only {len(self) - self._pos} available.\")\n", "", ['POSW'])
 V('POSW_insert_unvalidated', ['C06', 'C03'], 'bitstream.py', "        if not 0 <= pos <= len(self):\n            raise ValueError(\"Invalid insert position.\")\n        self._insert(bs, pos)\n        self._pos = pos + len(bs)",
-  "        self._insert(bs, pos)\n        self._pos = pos + len(bs)", ['POSW'])
+  "        self._insert(bs, pos)\n        self._pos = pos + len(bs)", ['POSW', 'N1'])
 V('POST_append_pos_zero', ['C06'], 'bitstream.py', "        self._append(bs)\n        self._pos = len(self)\n\n", "        self._append(bs)\n        self._pos = 0\n\n", ['POST'])
 V('POST_find_sets_end', ['C06'], 'bitstream.py', "        p = super().find(bs, start, end, bytealigned)\n        if p:\n            self._pos = p[0]", "        p = super().find(bs, start, end, bytealigned)\n        if p:\n            self._pos = len(self)", ['POST'])
 V('C_getitem_no_pos', ['C06', 'C16'], 'bitstream.py', "        bs._bitstore = self._bitstore.getslice_withstep(key)\n        bs._pos = 0\n        return bs", "        bs._bitstore = self._bitstore.getslice_withstep(key)\n        return bs", ['C', 'POST'])
@@ -248,10 +248,88 @@ V('D2_ue_accepts_negative', ['C10', 'C15'], 'bitstore_helpers.py', "    i = int(
 V('E9_setuie_no_lsb0_refusal', ['C10', 'C12'], 'bits.py', "        if bitstring.options.lsb0:\n            raise bitstring.CreationError(\"Exp-Golomb codes cannot be used in lsb0 mode.\")\n        self._bitstore = bitstore_helpers.uie2bitstore(i)", "        self._bitstore = bitstore_helpers.uie2bitstore(i)", ['E9'])
 V('HASH_bitarray_hashable', ['C13'], 'bitarray_.py', "    __hash__: None = None\n", "    __hash__ = Bits.__hash__\n", ['HASH'])
 V('HASH_constbitstream_eq_only', ['C13'], 'bitstream.py', "    def __repr__(self) -> str:\n", "    def __eq__(self, bs: Any, /) -> bool:\n        return Bits.__eq__(self, bs)\n\n    def __repr__(self) -> str:\n", ['HASH'])
-V('D3_eq_typeerror_escapes', ['C13', 'C20'], 'bits.py', "        try:\n            return self._bitstore == Bits._create_from_bitstype(bs)._bitstore\n        except TypeError:\n            return False", "        return self._bitstore == Bits._create_from_bitstype(bs)._bitstore", ['D3'])
+V('D3_eq_typeerror_escapes', ['C13'], 'bits.py', "        try:\n            return self._bitstore == Bits._create_from_bitstype(bs)._bitstore\n        except TypeError:\n            return False", "        return self._bitstore == Bits._create_from_bitstype(bs)._bitstore", ['D3'])
 V('D3_ne_not_negation', ['C13'], 'bits.py', "        return not self.__eq__(bs)", "        return self._bitstore != Bits._create_from_bitstype(bs)._bitstore", ['D3'])
 V('L_frombuffer_keeps_whole_file', ['C08', 'C13', 'C16', 'C17'], 'bitstore.py', "            x._bitarray = bitarray.bitarray(x._bitarray[:x.modified_length])\n            x.modified_length = None\n", "", ['L'])
 V('E10_extend_ignores_itemsize', ['C18'], 'array_.py', "            other_dtype = dtype_register.get_dtype(name_value[0], iterable.itemsize * 8, scale=None)", "            other_dtype = dtype_register.get_dtype(*name_value, scale=None)", ['E10'])
 S('C_S_shift_dtypes', ['C06', 'C10', 'C09'], 'dtypes.py', fn=shift_lines)
 V('F1_option_dropped_from_key', ['C09'], 'bitstore_helpers.py', "    return _str_to_bitstore(s, bitstring.options.lsb0, bitstring.options.mxfp_overflow)", "    return _str_to_bitstore(s, bitstring.options.lsb0, 'saturate')", ['F1'])
 V('F1_cache_on_wrapper_again', ['C09'], 'bitstore_helpers.py', "def str_to_bitstore(s: str) -> BitStore:\n    # Some tokens", "@functools.lru_cache(CACHE_SIZE)\ndef str_to_bitstore(s: str) -> BitStore:\n    # Some tokens", ['F1'])
+
+# ------------------------------------------------------------------ C14 / dims, mutate
+V('I_fromfile_units', ['C14'], 'array_.py', "        self.data += new_data[0: items_to_append * self._dtype.bitlength]", "        self.data += new_data[0: items_to_append * self._dtype.length]", ['I'])
+V('I_len_units', ['C14'], 'array_.py', "        return len(self.data) // self._dtype.bitlength", "        return len(self.data) // self._dtype.length", ['I'])
+V('I_getitem_units', ['C14'], 'array_.py', "            return self._dtype.read_fn(self.data, start=self._dtype.bitlength * key)", "            return self._dtype.read_fn(self.data, start=self._dtype.length * key)", ['I'])
+V('I_insert_units', ['C14'], 'array_.py', "        self.data.insert(self._create_element(x), i * self._dtype.bitlength)", "        self.data.insert(self._create_element(x), i * self._dtype.length)", ['I'])
+V('I_itemsize_units', ['C14'], 'array_.py', "    def itemsize(self) -> int:\n        return self._dtype.bitlength", "    def itemsize(self) -> int:\n        return self._dtype.length", ['I'])
+V('I_create_element_compare', ['C14'], 'array_.py', "        if len(b) != self._dtype.bitlength:\n            raise ValueError(f\"The value {value!r}", "        if len(b) != self._dtype.length:\n            raise ValueError(f\"The value {value!r}", ['I'])
+V('B3_inplace_writes_as_it_goes', ['C14'], 'array_.py', "                new_data.append(self._create_element(op(v, value)))\n            except (CreationError, ZeroDivisionError, ValueError) as e:\n                if failures == 0:\n                    msg = str(e)\n                    index = i\n                failures += 1\n        if failures != 0:\n            raise ValueError(f\"Applying operator '{op.__name__}' to Array caused {failures} errors. \"\n                             f'First error at index {index} was: \"{msg}\"')\n        self.data = new_data",
+  "                self.data.overwrite(self._create_element(op(v, value)), self._dtype.bitlength * i)\n            except (CreationError, ZeroDivisionError, ValueError) as e:\n                if failures == 0:\n                    msg = str(e)\n                    index = i\n                failures += 1\n        if failures != 0:\n            raise ValueError(f\"Applying operator '{op.__name__}' to Array caused {failures} errors. \"\n                             f'First error at index {index} was: \"{msg}\"')", ['B3', 'B2'])
+V('B2_array_setitem_partial', ['C14', 'C15'], 'array_.py', "                new_elements = [self._create_element(v) for v in value]\n                for s, element in zip(range(start, stop, step), new_elements):\n                    self.data.overwrite(element, s * self._dtype.bitlength)",
+  "                for s, v in zip(range(start, stop, step), value):\n                    self.data.overwrite(self._create_element(v), s * self._dtype.bitlength)", ['B2'])
+V('B2_array_extend_partial', ['C14', 'C15'], 'array_.py', "            new_data = BitArray()\n            for item in iterable:\n                new_data += self._create_element(item)\n            self.data += new_data", "            for item in iterable:\n                self.data += self._create_element(item)", ['B2'])
+V('N2a_zero_width_accepted', ['C14', 'C20'], 'array_.py', "        if dtype.bitlength == 0:\n            raise ValueError(f\"A format with a non-zero length is needed for an Array, received '{new_dtype}'.\")\n", "", ['N2a', 'N2'])
+S('I_S_local_width', ['C14'], 'array_.py', "        return len(self.data) // self._dtype.bitlength", "        width = self._dtype.bitlength\n        return len(self.data) // width")
+S('I_S_shift_lines', ['C14', 'C18', 'C20'], 'array_.py', fn=shift_lines)
+
+# ------------------------------------------------------------------ C03 / C20 mutate
+V('B2_insert_guard_after_effect', ['C03'], 'bitarray_.py', "        if not 0 <= pos <= len(self):\n            raise ValueError(\"Invalid insert position.\")\n        self._insert(bs, pos)\n\n    def overwrite",
+  "        self._insert(bs, min(max(pos, 0), len(self)))\n        if not 0 <= pos <= len(self):\n            raise ValueError(\"Invalid insert position.\")\n\n    def overwrite", ['B2'])
+V('B2_setitem_int_writes_first', ['C03'], 'bitarray_.py', "            if value in (1, -1):\n                self._bitstore[key] = 1\n                return\n            raise ValueError(f\"Cannot set a single bit with integer {value}.\")",
+  "            self._bitstore[key] = 1\n            if value in (1, -1):\n                return\n            raise ValueError(f\"Cannot set a single bit with integer {value}.\")", ['B2'])
+V('WB_byteswap_unbounded', ['C03'], 'bitarray_.py', "            finalbit = min(start_v + totalbitsize, end_v)", "            finalbit = start_v + totalbitsize", ['WB'])
+V('WB_byteswap_repeat_to_len', ['C03'], 'bitarray_.py', "            # Try to repeat up to the end of the bitstring.\n            finalbit = end_v", "            # Try to repeat up to the end of the bitstring.\n            finalbit = len(self)", ['WB'])
+V('N1_overwrite_no_range_check', ['C03', 'C20'], 'bitarray_.py', "        if pos < 0 or pos > len(self):\n            raise ValueError(\"Overwrite starts outside boundary of bitstring.\")\n        self._overwrite(bs, pos)", "        self._overwrite(bs, pos)", ['N1'])
+V('N1_invert_no_range_check', ['C03', 'C20'], 'bitarray_.py', "            if not 0 <= p < length:\n                raise IndexError(f\"Bit position {p} out of range.\")\n", "", ['N1'])
+V('N1_ilshift_no_min', ['C20'], 'bitarray_.py', "        if not n:\n            return self\n        n = min(n, len(self))\n        return self._ilshift(n)", "        if not n:\n            return self\n        return self._ilshift(n)", ['N1'])
+V('N1_imul_no_neg_guard', ['C20', 'C01'], 'bitarray_.py', "        if n < 0:\n            raise ValueError(\"Cannot multiply by a negative integer.\")\n        return self._imul(n)", "        return self._imul(n)", ['N1', 'E6'])
+V('N1_new_assert', ['C20'], 'bits.py', "        value = 1 if bool(value) else 0\n        if pos is None:\n            return self._bitstore.all_set() if value else not self._bitstore.any_set()", "        value = 1 if bool(value) else 0\n        assert len(self) > 0\n        if pos is None:\n            return self._bitstore.all_set() if value else not self._bitstore.any_set()", ['N1'])
+V('N2_ror_no_empty_check', ['C20'], 'bitarray_.py', "        start, end = self._validate_slice(start, end)  # the _slice deals with msb0/lsb0\n        if start == end:\n            return\n", "        start, end = self._validate_slice(start, end)  # the _slice deals with msb0/lsb0\n", ['N2'])
+V('N2_pp_no_zero_guard', ['C19', 'C20'], 'bits.py', "            if total_group_chars == 0:\n                raise ValueError(f\"Can't use Dtype '{dtype1}' in pp() without a separator as it has no printable width.\")\n", "", ['N2'])
+V('N2_cut_modulo', ['C20'], 'bits.py', "        if bits <= 0:\n            raise ValueError(\"Cannot cut - bits must be >= 0.\")\n        c = 0", "        if bits < 0:\n            raise ValueError(\"Cannot cut - bits must be >= 0.\")\n        remainder = (end_ - start_) % bits\n        c = 0", ['N2'])
+V('M_typo_attribute', ['C20'], 'bitstream.py', "        skipped = (8 - (self._pos % 8)) % 8\n        self.pos += skipped", "        skipped = (8 - (self._pos % 8)) % 8\n        self.position += skipped", ['M'])
+V('M_helper_only_on_bitarray', ['C20'], 'bits.py', "        s = self._copy()\n        s._invert_all()\n        return s", "        s = self._copy()\n        s._setitem_slice(slice(None), ~0)\n        return s", ['M'])
+V('D1_undocumented_class', ['C20'], 'bits.py', "            raise ValueError(\"Cannot cut - count must be >= 0.\")", "            raise RuntimeError(\"Cannot cut - count must be >= 0.\")", ['D1'])
+V('D1_keyerror', ['C20'], 'bitarray_.py', "                raise ValueError(f\"Cannot parse format string {fmt}.\")", "                raise KeyError(fmt)", ['D1'])
+V('N3_unbound_name', ['C20'], 'bits.py', "            raise ValueError(\"Cannot cut - count must be >= 0.\")", "            raise ValueError(f\"Cannot cut - count must be >= 0, not {cnt}.\")", ['N3'])
+S('N_S_guard_reordered', ['C20', 'C03'], 'bitarray_.py', "        if pos < 0 or pos > len(self):\n            raise ValueError(\"Overwrite starts outside boundary of bitstring.\")", "        if pos > len(self) or pos < 0:\n            raise ValueError(\"Overwrite starts outside boundary of bitstring.\")")
+S('N_S_len_alias', ['C20', 'C03'], 'bitarray_.py', "        if not 0 <= pos <= len(self):\n            raise ValueError(\"Invalid insert position.\")\n        self._insert(bs, pos)\n\n    def overwrite", "        length = len(self)\n        if not 0 <= pos <= length:\n            raise ValueError(\"Invalid insert position.\")\n        self._insert(bs, pos)\n\n    def overwrite")
+
+# ------------------------------------------------------------------ C15 / ingest
+V('E5_bytes_no_offset_check', ['C15', 'C17'], 'bits.py', "        if offset > len(data) * 8:\n            raise bitstring.CreationError(f\"Offset of {offset} too large for data of length {len(data) * 8} bits.\")\n", "", ['E5'])
+V('E5_bitarray_negative_length', ['C15'], 'bits.py', "            if length < 0:\n                raise bitstring.CreationError(f\"Can't create bitstring with a negative length of {length}.\")\n            if offset + length > len(ba):", "            if offset + length > len(ba):", ['E5'])
+V('E5_bytesio_switched_slice', ['C12', 'C15', 'C17'], 'bits.py', "[byteoffset: byteoffset + bytelength]).getslice_msb0(\n                offset, offset + length)", "[byteoffset: byteoffset + bytelength]).getslice(\n                offset, offset + length)", ['E5'])
+V('E5_file_no_postcheck', ['C15', 'C17'], 'bits.py', "                    if len(self) != length:\n                        raise bitstring.CreationError(f\"Can't use a length of {length} bits and an offset of {offset} bits as file length is only {len(temp)} bits.\")", "                    pass", ['E5'])
+V('CHOKE_negative_length_accepted', ['C15', 'C19'], 'dtypes.py', "        if length < 0:\n            raise ValueError(f\"A negative length ({length}) was supplied for the '{self.name}' dtype.\")\n", "", ['CHOKE'])
+V('CHOKE_second_creator', ['C15'], 'dtypes.py', "            x = dtype_register.get_dtype(token, length, scale)\n            return x", "            x = Dtype._create(dtype_register.names[token], length, scale)\n            return x", ['CHOKE'], accept_analysis_error=True)
+V('LV_setattr_no_lengthcheck', ['C15', 'C02'], 'bitarray_.py', "            if len(x) != dtype.bitlength:\n                raise CreationError(f\"Can't initialise with value of length {len(x)} bits, \"\n                                    f\"as attribute has length of {dtype.bitlength} bits.\")\n", "", ['LV'])
+V('LV_token_no_lengthcheck', ['C15', 'C02'], 'bitstore_helpers.py', "    if token_length is not None and len(bs) != d.bitlength:\n        raise bitstring.CreationError(f\"Token with length {token_length} packed with value of length {len(bs)} \"\n                                      f\"({name}:{token_length}={value}).\")\n", "", ['LV'])
+V('E4_setintle_accepts_zero', ['C15'], 'bits.py', "        if length is None or length == 0:\n            raise bitstring.CreationError(\"A non-zero length must be specified with an intle initialiser.\")", "        if length is None:\n            raise bitstring.CreationError(\"A non-zero length must be specified with an intle initialiser.\")", ['E4'])
+V('E4_bfloat_any_length', ['C15'], 'bits.py', "        if length is not None and length != 16:\n            raise bitstring.CreationError(f\"bfloats must be length 16, received a length of {length} bits.\")\n        self._bitstore = bitstore_helpers.bfloat2bitstore(f, True)", "        self._bitstore = bitstore_helpers.bfloat2bitstore(f, True)", ['E4'])
+V('H3_bool_two_bits', ['C15', 'C02'], '__init__.py', "                    allowed_lengths=(1,), description=\"a bool (True or False)\"),", "                    allowed_lengths=(1, 2), description=\"a bool (True or False)\"),", ['H3'])
+V('H3_uintle_any_length', ['C15', 'C02'], '__init__.py', "    DtypeDefinition('uintle', Bits._setuintle, Bits._getuintle, int, False, uint_bits2chars,\n                    allowed_lengths=(8, 16, 24, ...),", "    DtypeDefinition('uintle', Bits._setuintle, Bits._getuintle, int, False, uint_bits2chars,\n                    allowed_lengths=(4, 8, 12, ...),", ['H3'])
+
+# ------------------------------------------------------------------ C12 / mode
+V('G2_slice_bypasses_mirror', ['C12'], 'bits.py', "        bs = self.__class__()\n        bs._bitstore = self._bitstore.getslice(start, end)\n        return bs", "        bs = self.__class__()\n        bs._bitstore = self._bitstore.getslice_msb0(start, end)\n        return bs", ['G2'])
+V('G2_startswith_mixes', ['C12'], 'bits.py', "        return self._slice(start, start + len(prefix)) == prefix if end >= start + len(prefix) else False", "        return self._find_msb0(prefix, start, start + len(prefix), False) == (start,) if end >= start + len(prefix) else False", ['G2'])
+V('G3_hash_switched_again', ['C12', 'C13'], 'bits.py', "            start_and_end = self._absolute_slice(0, 800) + self._absolute_slice(len(self) - 800, len(self))", "            start_and_end = self[:800] + self[-800:]", ['G3'])
+V('G3_getuint_partial_slice', ['C12'], 'bits.py', "        return self._bitstore.slice_to_uint()", "        return self._bitstore.slice_to_uint(0, len(self))", ['G3'])
+V('G3_tobytes_reads_mode', ['C12'], 'bits.py', "        return self._bitstore.tobytes()\n\n    def tobitarray", "        if bitstring.options.lsb0:\n            return self._bitstore.getslice(0, None).tobytes()\n        return self._bitstore.tobytes()\n\n    def tobitarray", ['G3'])
+V('E8_setitem_lsb0_assumes_store', ['C12', 'C20'], 'bitstore.py', "            if isinstance(value, BitStore):\n                self._bitarray.__setitem__(new_slice, value._bitarray)\n            else:\n                self._bitarray.__setitem__(new_slice, value)", "            self._bitarray.__setitem__(new_slice, value._bitarray)", ['E8'])
+V('N1_indices_assert_back', ['C12', 'C20'], 'bitstore.py', "    if s.step == 0:\n        raise ValueError(\"slice step cannot be zero\")\n", "    assert s.step < 0\n", ['N1'])
+S('G_S_shift_bitstore', ['C12', 'C08', 'C04', 'C13'], 'bitstore.py', fn=shift_lines)
+
+# ------------------------------------------------------------------ C02 / C19 / C17 misc
+V('H4_setuintbe_signed', ['C02'], 'bits.py', "            raise bitstring.CreationError(\"A non-zero length must be specified with a uintbe initialiser.\")\n        self._bitstore = bitstore_helpers.int2bitstore(uintbe, length, False)", "            raise bitstring.CreationError(\"A non-zero length must be specified with a uintbe initialiser.\")\n        self._bitstore = bitstore_helpers.int2bitstore(uintbe, length, True)", ['H4'])
+V('H4_getintle_no_reversal', ['C02', 'C18'], 'bits.py', "        bs = BitStore.frombytes(self._bitstore.tobytes()[::-1])\n        return bs.slice_to_int()", "        bs = BitStore.frombytes(self._bitstore.tobytes())\n        return bs.slice_to_int()", ['H4'])
+V('H4_getintbe_unsigned', ['C02'], 'bits.py', "            raise bitstring.InterpretError(f\"Big-endian integers must be whole-byte. Length = {len(self)} bits.\")\n        return self._getint()", "            raise bitstring.InterpretError(f\"Big-endian integers must be whole-byte. Length = {len(self)} bits.\")\n        return self._getuint()", ['H4'])
+V('H4_intle_double_reverse', ['C02', 'C18'], 'bitstore_helpers.py', "    x = int2bitstore(i, length, signed).tobytes()\n    return BitStore.frombytes(x[::-1])", "    x = int2bitstore(i, length, signed).tobytes()[::-1]\n    return BitStore.frombytes(x[::-1])", ['H4'])
+V('H4_property_setter_swapped', ['C02'], 'dtypes.py', "            setattr(bitstring.bitarray_.BitArray, definition.name, property(fget=definition.get_fn, fset=definition.set_fn,", "            setattr(bitstring.bitarray_.BitArray, definition.name, property(fget=definition.get_fn, fset=definition.get_fn,", ['H4'])
+V('H4_floatle_flag', ['C02', 'C18'], 'bits.py', "        self._setfloat(f, length, False)", "        self._setfloat(f, length, True)", ['H4'])
+V('ESC_colour_leak', ['C19'], 'bits.py', "        x = colour_start + x + colour_end", "        x = colour_start + x + (colour_end or '\\033[0m')", ['ESC'])
+V('ESC_colour_ignores_option', ['C19'], 'array_.py', "        colour = Colour(not options.no_color)", "        colour = Colour(True)", ['ESC'])
+V('ESC_else_branch_keeps_off', ['C19'], 'bitstring_options.py', "            cls.blue = cls.purple = cls.green = cls.off = ''", "            cls.blue = cls.purple = cls.green = ''\n            cls.off = '\\033[0m'", ['ESC'])
+V('POST_repr_drops_pos', ['C19', 'C06'], 'bitstream.py', "        return self._repr(self.__class__.__name__, len(self), self._pos)", "        return self._repr(self.__class__.__name__, len(self), 0)", ['POST'])
+V('DELEG_array_tobytes_trailing', ['C17'], 'array_.py', "        return self.data.tobytes()", "        return self.data[:len(self) * self._dtype.bitlength].tobytes()", ['DELEG'])
+V('DELEG_bytes_guard_removed', ['C17'], 'bits.py', "        if len(self) % 8:\n            raise bitstring.InterpretError(\"Cannot interpret as bytes unambiguously - not multiple of 8 bits.\")\n        return self._bitstore.tobytes()", "        return self._bitstore.tobytes()", ['DELEG'])
+V('DELEG_tofile_writes_bytes_property', ['C17'], 'bits.py', "            f.write(chunk.tobytes())", "            f.write(chunk.bytes if len(chunk) % 8 == 0 else chunk.tobytes()[:-1])", ['DELEG'])
